@@ -1808,8 +1808,12 @@ _read_macro_dispatch: Mapping[str, RawLispReaderFn] = {
 }
 
 
+@_with_loc
 def _read_reader_macro(ctx: ReaderContext) -> LispReaderForm:
-    """Return a data structure evaluated as a reader macro from the input stream."""
+    """Return a data structure evaluated as a reader macro from the input stream.
+
+    Location metadata is attached here as well as by the individual macro readers so
+    that the span of forms like ``#{...}`` and ``#(...)`` starts at the ``#``."""
     start = ctx.reader.advance()
     assert start == "#"
     char = ctx.reader.peek()
@@ -1818,7 +1822,8 @@ def _read_reader_macro(ctx: ReaderContext) -> LispReaderForm:
         return read_macro(ctx)
     elif begin_ns_name_chars.match(char):
         s = _read_sym(ctx, is_reader_macro_sym=True)
-        assert isinstance(s, sym.Symbol)
+        if not isinstance(s, sym.Symbol):
+            raise ctx.syntax_error(f"Invalid tag for tagged literal: #{lrepr(s)}")
         if s.ns is None:
             if s.name == "b":
                 return _read_byte_str(ctx)
